@@ -483,3 +483,64 @@ Proof.
 Qed.
 
 End Summary.
+
+Section Generate.
+Context {V W : Type}.
+
+(* generate_elemental_attribute: an element id carries, in the block of its own
+   type, exactly the row handed in for that id; ids of a block ascending *)
+Definition gpick (tbl : table V) (i : Z) : table V :=
+  match lookup i tbl with Some v => [(i, v)] | None => [] end.
+
+Lemma gpick_In tbl l i v : In (i, v) (flat_map (gpick tbl) l) <-> In i l /\ lookup i tbl = Some v.
+Proof.
+  rewrite in_flat_map. unfold gpick. split.
+  - intros [j [Hj H]]. destruct (lookup j tbl) eqn:L; [|destruct H].
+    destruct H as [E|[]]. inversion E; subst. auto.
+  - intros [Hi L]. exists i. split; auto. rewrite L. simpl; auto.
+Qed.
+
+Theorem egenerate_In (bs : list (nat * table W)) (tbl : table V) i t v :
+  In (i, (t, v)) (flatten (egenerate bs tbl)) <->
+  lookup i tbl = Some v /\ exists c, In (i, (t, c)) (flatten bs).
+Proof.
+  unfold egenerate. rewrite flatten_In. split.
+  - intros [b [Hb Hv]]. apply filter_In in Hb. destruct Hb as [Hb _].
+    apply in_map_iff in Hb. destruct Hb as [[t0 b0] [E Hb0]]. simpl in E. inversion E; subst; clear E.
+    apply gpick_In in Hv. destruct Hv as [Hi L]. split; auto.
+    apply (proj1 (uniqueZ_In _ _)) in Hi. apply in_map_iff in Hi. destruct Hi as [[j c] [E Hc]]. simpl in E; subst j.
+    exists c. apply flatten_In. eauto.
+  - intros [L [c Hc]]. apply flatten_In in Hc. destruct Hc as [b0 [Hb0 Hc]].
+    assert (Hin : In (i, v) (flat_map (gpick tbl) (uniqueZ (ids b0)))).
+    { apply gpick_In. split; auto. apply uniqueZ_In. apply in_map_iff. exists (i, c). auto. }
+    exists (flat_map (gpick tbl) (uniqueZ (ids b0))). split; auto.
+    apply filter_In. split.
+    + apply in_map_iff. exists (t, b0). auto.
+    + simpl. apply negb_true_iff, Nat.eqb_neq. intros Hl. apply length_zero_iff_nil in Hl.
+      rewrite Hl in Hin. destruct Hin.
+Qed.
+
+Lemma gpick_ids tbl l : ids (flat_map (gpick tbl) l) =
+  filter (fun i => match lookup i tbl with Some _ => true | None => false end) l.
+Proof.
+  induction l as [|i l IH]; simpl; [reflexivity|]. unfold ids in *. rewrite map_app, IH.
+  unfold gpick. destruct (lookup i tbl); reflexivity.
+Qed.
+
+Lemma filter_sorted_lt (f : Z -> bool) l : StronglySorted Z.lt l -> StronglySorted Z.lt (filter f l).
+Proof.
+  induction 1 as [|x r S IH F]; simpl; [constructor|]. destruct (f x); auto.
+  constructor; auto. rewrite Forall_forall in *. intros y Hy. apply filter_In in Hy. apply F; tauto.
+Qed.
+
+Theorem egenerate_sorted (bs : list (nat * table W)) (tbl : table V) :
+  Forall (fun b => StronglySorted Z.lt (ids (snd b))) (egenerate bs tbl).
+Proof.
+  unfold egenerate. apply Forall_forall. intros b Hb. apply filter_In in Hb. destruct Hb as [Hb _].
+  apply in_map_iff in Hb. destruct Hb as [b0 [E _]]. subst b. simpl.
+  change (StronglySorted Z.lt (ids (flat_map (gpick tbl) (uniqueZ (ids (snd b0)))))).
+  rewrite gpick_ids. apply filter_sorted_lt. apply uniqueZ_sorted.
+Qed.
+
+End Generate.
+
